@@ -91,12 +91,12 @@ CHECKS["C08"] = dict(
 
 CHECKS["C09"] = dict(
    technique="property-based testing (Hypothesis): generated (example family, parameters, real class member, start point); the modelled method is re-implemented in numpy and run on the real member (differential against the bound returned by the shipped example), with extremal members in the generators",
-   text="Generated-input search over 14 method families (gradient, momentum, proximal, splitting, Frank-Wolfe, fixed-point, monotone-operator methods), parameters in the documented ranges, real members of the declared classes (incl. the published worst cases: Huber functions with the extremal knee, rotations, extreme-curvature quadratics, c|x|), dimensions and starting points: the real performance never exceeds the returned bound (1e-4 relative). The largest ratio reached per family is reported (1.0 for most families).",
-   note="Trusted: the numpy re-implementations (from the docstrings), vf/members.py, CLARABEL. Members are a subset of each class; randomized methods are not simulated.",
+   text="Generated-input search over 57 method families (gradient, momentum, line-search, coordinate, proximal, inexact-proximal, splitting, Frank-Wolfe, stochastic with exact expectation, fixed-point, monotone-operator, adaptive methods and potential functions), parameters in the documented ranges, real members of the declared classes (incl. the published worst cases: Huber functions with the extremal knee, rotations, extreme-curvature quadratics, c|x|, M|x|_inf in dimension n+1), dimensions and starting points: the real performance never exceeds the returned bound (1e-4 relative). The largest ratio reached per family is reported (>= 0.99 for 40 of 54 ratio families in the quick tier).",
+   note="Trusted: the numpy re-implementations (from the docstrings), vf/members.py, CLARABEL. Members are a subset of each class; randomized methods are evaluated through the exact expectation over the finite sample space; bounds are computed with CLARABEL also where an example does not forward a solver.",
    design="DESIGN.md §3 C09")
 CHECKS["C10"] = dict(
    technique="property-based testing (Hypothesis): every shipped example with a closed-form rate is run at generated parameters inside its documented range and compared with the rate it documents (tight: equality 1e-3, upper: one-sided); metamorphic relation: 13 equivalent formulations against their base example at generated parameters",
-   text="Generated-input search over the parameter ranges stated in the docstrings of 58 examples (vf/examples_table.py: kind tight / upper derived from the docstring wording and the assertion used in the suite) and over parameters of the complexified formulations (split functions, redundant LMIs, useless partitions): tight rates are met, upper bounds are not exceeded, equivalent formulations do not move the value.",
+   text="Generated-input search over the parameter ranges stated in the docstrings of 58 examples (vf/examples_table.py: kind tight / upper derived from the docstring wording and the assertion used in the suite) and over parameters of the complexified formulations (split functions, redundant LMIs, useless partitions): tight rates are met, upper bounds are not exceeded, equivalent formulations do not move the value, and the wrapper / solver an example is called with are the ones its PEP.solve call receives.",
    note="Trusted: the closed forms returned by the examples within the documented ranges, CLARABEL (non-optimal statuses are inconclusive). Examples without closed form are only used in C09 / the metamorphic stream.",
    design="DESIGN.md §3 C10, Appendix B")
 
